@@ -134,7 +134,7 @@ def coq_str_list(l) -> str:
 # Fragment registry
 # ----------------------------------------------------------------------------------------------
 class Fragment:
-    def __init__(self, name, file, props, coq_name, coq_type, expected, defs=None, literal=None, printer=None, doc=""):
+    def __init__(self, name, file, props, coq_name, coq_type, expected, defs=None, literal=None, printer=None, doc="", fn=None):
         self.name = name            # directory under tools/shapes
         self.file = file            # path relative to the repo root
         self.props = props          # property ids whose tie depends on this fragment
@@ -145,9 +145,16 @@ class Fragment:
         self.literal = literal      # module-level name (literal fragments)
         self.printer = printer
         self.doc = doc
+        self.fn = fn                # custom extractor: fn(module_ast, repo_path) -> value, raises Unrecognised
 
 
 FRAGMENTS: list[Fragment] = []
+TABLE_IMPORTS: list[str] = ["From CM Require Import Base.TableTypes."]
+
+
+class Unrecognised(Exception):
+    pass
+
 
 
 def shape(name, file, props, coq_name, coq_type, expected, defs, doc=""):
@@ -156,6 +163,11 @@ def shape(name, file, props, coq_name, coq_type, expected, defs, doc=""):
 
 def literal(name, file, props, coq_name, coq_type, expected, literal_name, printer, doc=""):
     FRAGMENTS.append(Fragment(name, file, props, coq_name, coq_type, expected, literal=literal_name, printer=printer, doc=doc))
+
+
+def custom(name, file, props, coq_name, coq_type, expected, fn, printer=None, doc=""):
+    """fn(module_ast, repo_path) returns the table value or raises Unrecognised(why)."""
+    FRAGMENTS.append(Fragment(name, file, props, coq_name, coq_type, expected, fn=fn, printer=printer, doc=doc))
 
 
 # ---- the fragments ---------------------------------------------------------------------------
@@ -193,7 +205,7 @@ def known_variants(frag: Fragment) -> dict[str, str]:
 def translate(repo: Path):
     values, unrecognised, details = {}, [], {}
     lines = ["(* GENERATED by tools/translate.py from the current working tree of the repository. Do not edit. *)",
-             "From CM Require Import Base.TableTypes.", ""]
+             *TABLE_IMPORTS, ""]
     cache = {}
     for frag in FRAGMENTS:
         src = repo / frag.file
@@ -202,7 +214,12 @@ def translate(repo: Path):
             if src not in cache:
                 cache[src] = ast.parse(src.read_text(encoding="utf-8"))
             tree = cache[src]
-            if frag.defs is not None:
+            if frag.fn is not None:
+                try:
+                    value = frag.fn(tree, repo)
+                except Unrecognised as e:
+                    status, why = "unrecognised", str(e)
+            elif frag.defs is not None:
                 got = fragment_dump(tree, frag.defs)
                 for variant, dumps in known_variants(frag).items():
                     if got in dumps:
